@@ -71,7 +71,7 @@ Fixpoint take_bits (n : nat) (bits : list bool) : Z * list bool :=
   end.
 
 (** * Encoder *)
-Definition create_f64 (P : Z) (freqs : list Z) : cres := rans_create (f64_rnd P) (f64_scale P) P freqs.
+Definition create_f64 (P : Z) (freqs : list Z) : cres := rans_create f64 (f64_rnd P) (f64_rel P) f64_scale P freqs.
 Definition create_ok (P : Z) (freqs : list Z) : bool :=
   match create_f64 P freqs with COk _ => true | _ => false end.
 
